@@ -99,6 +99,17 @@ def scenarios(d):
                "schemas/item.json": {"type": "string"}}, remote={},
         instances=[{"o": {"i": 5, "n": "x"}, "z": "s"}, {"o": {"i": "ok"}, "zz": 1}, {"z": 1, "zz": "t"}],
         refs=["#/definitions/int", "schemas/item.json"]))
+    # a root document WITHOUT an id (nothing re-establishes the base at the start of a call), a subschema that carries an
+    # id, and same-document references elsewhere: whatever was going on below the id when an earlier call stopped at its
+    # first error, the base of the next call is the root's again
+    out.append(dict(
+        name="nested-id-under-idless-root",
+        schema={"properties": {"b": {idk: NESTED, "properties": {"c": {"type": "integer"}, "e": {"$ref": "item.json"}}},
+                               "d": {"$ref": "#/definitions/int"}},
+                "definitions": {"int": {"type": "integer"}}},
+        store={NESTED + "item.json": {"type": "string"}}, remote={},
+        instances=[{"b": {"c": "x"}, "d": "y"}, {"b": {"c": 1, "e": 5}, "d": 2}, {"d": None}, {"b": {"c": None, "e": 1}}],
+        refs=["#/definitions/int"]))
     if d >= 4:
         inner = {"anyOf": [{"$ref": OTHER + "#/definitions/str"}, {"$ref": "#/definitions/int"}],
                  "oneOf": [{"$ref": "#/definitions/int"}, {"$ref": OTHER + "#/definitions/num"}]}
